@@ -105,6 +105,42 @@ def gen_T02():
     addsrc = ast.unparse([n for n in cap.body if isinstance(n, ast.FunctionDef) and n.name == 'add'][0])
     need('capability.split() != [capability]' in addsrc, 'Admin.capability.add: the single-token test is missing')
     need(addsrc.index('capability.split() != [capability]') < addsrc.index('user.addCapability'), 'Admin.capability.add: token test after the add')
+    # Channel.capability.*: the expression that builds the stored capability, applied unconditionally
+    ccls = find_class(tree('plugins/Channel/plugin.py'), 'Channel')
+    ccap = [n for n in ccls.body if isinstance(n, ast.ClassDef) and n.name == 'capability']
+    need(len(ccap) == 1, 'Channel.capability class')
+
+    def cmd_loop(name, itersrc):
+        """the single `for c in <itersrc>:` loop of Channel.capability.<name>; returns its body as source lines"""
+        f = [n for n in ccap[0].body if isinstance(n, ast.FunctionDef) and n.name == name]
+        need(len(f) == 1, 'Channel.capability.%s' % name)
+        loops = [n for n in ast.walk(f[0]) if isinstance(n, (ast.For, ast.While))]
+        need(len(loops) == 1 and isinstance(loops[0], ast.For) and ast.unparse(loops[0].target) == 'c'
+             and ast.unparse(loops[0].iter) == itersrc and not loops[0].orelse,
+             'Channel.capability.%s: expected exactly one `for c in %s` loop' % (name, itersrc))
+        need(loops[0] in f[0].body, 'Channel.capability.%s: the loop is no longer a top-level statement' % name)
+        return f[0], [ast.unparse(x) for x in loops[0].body]
+
+    f, body = cmd_loop('add', 'capabilities.split()')
+    need(body == ['c = ircdb.makeChannelCapability(channel, c)', 'user.addCapability(c)'],
+         'Channel.capability.add: every word must be prefixed with the verified channel '
+         '(c = ircdb.makeChannelCapability(channel, c); user.addCapability(c)), found: %r' % body)
+    need(sum(1 for n in ast.walk(f) if isinstance(n, ast.Call) and ast.unparse(n.func).endswith('addCapability')) == 1,
+         'Channel.capability.add: more than one addCapability call')
+    f, body = cmd_loop('remove', 'capabilities.split()')
+    need(body[0] == 'cap = ircdb.makeChannelCapability(channel, c)' and len(body) == 2
+         and body[1].replace('\n', ' ').split() == 'try: user.removeCapability(cap) except KeyError: fail.append(c)'.split(),
+         'Channel.capability.remove: loop body changed: %r' % body)
+    f, body = cmd_loop('set', 'capabilities')
+    need(body == ['chan.addCapability(c)'] and 'chan = ircdb.channels.getChannel(channel)' in ast.unparse(f)
+         and 'ircdb.channels.setChannel(channel, chan)' in ast.unparse(f), 'Channel.capability.set: body changed: %r' % body)
+    f, body = cmd_loop('unset', 'capabilities')
+    need(len(body) == 1 and body[0].replace('\n', ' ').split() == 'try: chan.removeCapability(c) except KeyError: fail.append(c)'.split()
+         and 'chan = ircdb.channels.getChannel(channel)' in ast.unparse(f), 'Channel.capability.unset: body changed: %r' % body)
+    for name in ('add', 'remove', 'set', 'unset'):
+        fn = [n for n in ccap[0].body if isinstance(n, ast.FunctionDef) and n.name == name][0]
+        need('users.getUser' not in ast.unparse(fn) and 'capabilities.add' not in ast.unparse(fn),
+             'Channel.capability.%s touches capability sets outside the pinned statements' % name)
     out = 'Definition NAME_FORBIDDEN : list N := %s.\n' % clist(str(ord(c)) for c in forbidden)
     out += 'Definition SPECS : list (list N * list N) := %s.\n' % clist(
         '(%s, %s)' % (cstr(k), cstr(v)) for k, v in specs)
